@@ -192,6 +192,14 @@ def run(ctx):
     for s, r in zip(scripts, reals):
         oracle(ctx, s, r)
         W.refused_leaves_no_trace(ctx, s, r, "c12")
+    # power state as the rest of the application sees it: a powered-off transceiver gets nothing and hides nobody - every OTHER running
+    # transceiver (before or after it in the application's list) keeps getting its bursts (sessions of 2..6 transceivers with power
+    # commands; generator and routing oracle shared with C02, fan-out sessions included)
+    from . import C02 as _C02
+    rs = [_C02.make_script(rng) for _ in range(40 if ctx.tier == "quick" else 1500)] + [_C02.fanout_script(rng) for _ in range(20 if ctx.tier == "quick" else 500)]
+    rreals = SC.run_scripts(ctx, "routing-session", rs)
+    for s, r in zip(rs, rreals):
+        _C02.oracle(ctx, s, r)
     check_ports(ctx, rng)
     # POWEROFF forgets all queued bursts whatever the clock thread is doing at that moment: the power command on the socket thread
     # racing one tick on the clock thread, on two real threads over the real objects under the schedule driver of C03 (vp/sched_driver.py)
